@@ -1188,9 +1188,37 @@ def str_method(interp, s, name, args, kwargs):
                 out.append(s)
             out.append(x)
         return str_concat(interp, out)
+    if name == 'strip' and not args:
+        return str_strip(interp, t)
     if name == 'capitalize' or name == 'strip' or name == 'split':
         raise Unsupported('str.%s on symbolic string' % name)
     raise Unsupported('str method %s' % name)
+
+
+_WS_CHARS = [c for c in range(0x110000) if chr(c).isspace()]          # exactly what str.strip() removes
+
+
+def _ws_class():
+    return '(re.union %s)' % ' '.join('(str.to_re %s)' % tm.smt_str(chr(c)) for c in _WS_CHARS)
+
+
+def str_strip(interp, t):
+    """s.strip(): s = a ++ r ++ b with a, b whitespace only and r neither starting nor ending with whitespace
+    (r, a, b fresh; the decomposition is unique)."""
+    if t.is_const:
+        return t.val.strip()
+    ctx = interp.ctx
+    r, a, b = ctx.fresh('strip', tm.STR), ctx.fresh('strip_l', tm.STR), ctx.fresh('strip_r', tm.STR)
+    ws = _ws_class()
+    wsstar = tm.T('re', (), 'RegLan', tm.register_re('(re.* %s)' % ws, r'\s*'))
+    core = tm.T('re', (), 'RegLan', tm.register_re(
+        '(re.union (str.to_re "") (re.diff re.allchar %s) (re.++ (re.diff re.allchar %s) re.all (re.diff re.allchar %s)))' % (ws, ws, ws),
+        r'(?s:|\S|\S.*\S)'))
+    ctx.assume(tm.mk_eq(t, tm.mk_concat(a, r, b)))
+    ctx.assume(tm.T('str.in_re', (a, wsstar), tm.BOOL))
+    ctx.assume(tm.T('str.in_re', (b, wsstar), tm.BOOL))
+    ctx.assume(tm.T('str.in_re', (r, core), tm.BOOL))
+    return SStr(r)
 
 
 def symseq_method(interp, o, name, args, kwargs):
